@@ -509,6 +509,52 @@ func privBody(a, k int) int {
 	return a + 100*k
 }
 
+// raceIface is the interface of the variables mocked by ifaceStage.
+type raceIface interface{ Get(a int) int }
+
+var raceVars [8]raceIface
+
+//go:noinline
+func callRaceVar(i, a int) int { return raceVars[i].Get(a) }
+
+// ifaceStage: independent builders mock disjoint interface variables at once (each stub is emitted
+// while the others are being emitted), call through them and reset.
+func ifaceStage(c *vk.Ctx) {
+	var wg sync.WaitGroup
+	start := make(chan struct{})
+	fails := make([]string, len(raceVars))
+	for i := range raceVars {
+		i := i
+		wg.Add(1)
+		go func() {
+			defer wg.Done()
+			growStack(48)
+			<-start
+			for r := 0; r < 200; r++ {
+				b := mocker.Create()
+				want := 400000 + 1000*i + r
+				b.Interface(&raceVars[i]).Method("Get").Apply(func(ctx *mocker.IContext, a int) int { return a + want })
+				var got int
+				msg, p := vk.Try(func() { got = callRaceVar(i, 7) })
+				if fails[i] == "" && (p || got != 7+want) {
+					fails[i] = fmt.Sprintf("variable %d mocked by its own builder: Get(7) returned %d (panic %q), expected %d", i, got, vk.Short(msg, 60), 7+want)
+				}
+				b.Reset()
+			}
+		}()
+	}
+	close(start)
+	wg.Wait()
+	c.Res.Evaluations++
+	c.Res.Traces++
+	for _, f := range fails {
+		if f != "" {
+			c.Violate("race class=iface-wrong-result", "free-running pass (8 builders mocking 8 interface variables at once): "+f, Case{Sub: "race"})
+			break
+		}
+	}
+}
+
 // byName: independent builders mock disjoint unexported functions by name, all at once.
 func byName(c *vk.Ctx) {
 	privs := []func(int) int{priv0, priv1, priv2, priv3, priv4, priv5, priv6, priv7}
@@ -560,6 +606,7 @@ func race(c *vk.Ctx) {
 	names := []string{"F1", "F2", "F3", "F4", "F5", "F6", "F7", "F8"}
 	c.Note(`{"__key":"race free-running pass","case":{"sub":"race"}}`)
 	byName(c)
+	ifaceStage(c)
 	for _, nm := range []int{2, 4, 8} {
 		for _, nc := range []int{2, 8} {
 			for r := 0; r < rounds; r++ {
